@@ -145,8 +145,16 @@ class Material(MaterialFile):
             ), axis=1
         )
 
-        # Sort by similarity score in ascending order
-        dfi = dfi.sort_values(by='similarity_score').reset_index(drop=True)
+        # Sort by similarity score in ascending order; among equally similar
+        # names an entry whose reference is exactly the one asked for comes
+        # before entries that merely contain it
+        sort_keys = ['similarity_score']
+        if self.reference:
+            dfi['reference_inexact'] = (
+                dfi['reference'].str.lower() != self.reference.lower())
+            sort_keys.append('reference_inexact')
+        dfi = dfi.sort_values(by=sort_keys, kind='stable')
+        dfi = dfi.reset_index(drop=True)
 
         # Warning if no exact matches found
         if dfi['similarity_score'].iloc[0] > 0:
